@@ -9,5 +9,5 @@ for f in sorted(glob.glob('/verif/seeded/*/meta.json')):
     d = re.sub(r'\s+', ' ', d)
     d = re.sub(r'^[ab]\s*[—:-]*\s*', '', d, flags=re.I)
     first = 'none (see checks_run)' if not m['caught_by'] else ', '.join(m['caught_by'])
-    late = any('after ' in x or 'MISS at first' in x for x in m['checks_run'])
+    late = any('after ' in x or 'MISS at first' in x for x in m['checks_run']) or 'Strengthened' in m.get('note', '')
     print('| %s | %s | %s | %s%s |' % (m['id'], m['breaks_property'], d[:230].replace('|', '/'), first, ' (after strengthening)' if late else ''))
